@@ -91,7 +91,7 @@ def run (ctx):
       outs.add((rv if isinstance(rv, (int, type(None))) else '?', tuple(pl) if isinstance(pl, list) else '?'))
     return outs
   NEW_ = ('PKT', 9)
-  cases = [((X_, None, Y_), 4, (2, (X_, NEW_, Y_))), ((X_, Y_), 4, (3, (X_, Y_, NEW_))), ((X_, Y_), 2, (None, (X_, Y_))), ((), 4, (1, (NEW_,))), ((None, None), 2, (1, (NEW_, None)))]
+  cases = [((X_, None, Y_), 3, (2, (X_, NEW_, Y_))), ((X_, Y_), 4, (3, (X_, Y_, NEW_))), ((X_, Y_), 2, (None, (X_, Y_))), ((), 4, (1, (NEW_,))), ((None, None), 2, (1, (NEW_, None)))]
   wrong = []; unknown = 0
   for pool, maxb, want in cases:
     got = alloc_on(pool, maxb)
@@ -191,6 +191,7 @@ def run (ctx):
       if not (v is None or (isinstance(v, ast.Constant) and v.value is None)): continue
       rn = q.enclosing_stmt_node(g, r)
       good = rn is not None and (any(g.dominates(h, rn) for h in scan) or any(f_ in ('None not in self.%s' % BUF,) for f_ in q.fact_strs(g, rn)))
+      if not good and alloc_by_value and not wrong: good = True       # scan not recognised structurally; a pool that is full by count but has a free slot reuses it on the sample pools
       ctx.ob('R-ORDER', alloc, "a buffer is refused only after the free-slot scan", good,
              "`return None` is reached only after the scan" if good else
              "the allocator gives up (returns None) on a path that has not scanned for a free slot: once max_buffers packets "
@@ -240,6 +241,7 @@ def run (ctx):
     loops = [h for (s, h, a) in g.loop_nodes]
     for k, s, n in grow:
       good = any(g.dominates(h, n) for h in loops) or (n is not None and ('None not in self.%s' % BUF) in q.fact_strs(g, n))
+      if not good and alloc_by_value and not wrong: good = True
       ctx.ob('R-ORDER', alloc, "free slots are reused before the list grows", good,
              "growth happens only after the free-slot scan" if good else "list grows without first scanning for a free slot",
              (alloc.module, s), 'D2')
